@@ -36,6 +36,67 @@ CHECKS["C03"] = dict(
     technique="Coq proof (canonical sorting, purity) + configuration-sweep differential check + golden ids",
     design="5/C02-C03")
 
+CHECKS["C19"] = dict(
+    text="Coq model of ArchiveScanner (index with files/refs rows, scan with removal of vanished rows and refs), the predicate/"
+         "retain-expression evaluation, the LIMIT queue, query, the closure loop of clean, find, --dry-run and -n. 15 unbounded "
+         "theorems: top-n queue for all arrival orders, query = union of selections, clean keeps selected+closure and deletes "
+         "everything else, dry-run/find/scan/failing commands delete nothing, find lists exactly the selected, scan makes the "
+         "index the exact image of the archive, index_transparent over all histories (put/replace/touch/delete/commands), "
+         "closure = reachability. Tie: histories on real scratch archives of genuine .tgz artifacts run through doArchive -l and "
+         "through the model (vm_compute); independent declarative oracle; warm/stale vs fresh index.",
+    note="trusted: Coq kernel, vm_compute, harness; sqlite, pyparsing grammar, tar/gzip/json decoding are exercised, not modelled; "
+         "hypothesis stat_faithful (same name and binStat => same audit trail)",
+    technique="Coq proof (invariants over command histories, queue/closure lemmas) + differential histories on real archives",
+    design="5/C19")
+CHECKS["C20"] = dict(
+    text="Coq model of JobNameCalculator.sanitize (AbstractJob spanning, childs/parents closure, greedy merge of mutually "
+         "unreachable jobs, naming/numbering) and _genJenkinsJobs. Unbounded theorems: childs closed under job reachability "
+         "through every merge, contracting mutually unreachable vertices keeps a DAG, every needed variant in exactly one job, "
+         "upstream completeness; names_unique and job-graph acyclicity are `_refuted` by witnesses (known findings F4, F13) and "
+         "proved `_partial`. Tie: generated recipe projects parsed by the real RecipeSet, genJenkinsJobs/BuildOrder run "
+         "untouched and compared with the model; embedded job spec round trip compared getter by getter.",
+    note="trusted: Coq kernel, vm_compute, harness; PartialIR serialisation is only tied by the correspondence; fuel sufficiency "
+         "of the model loops is tied by correspondence, not proved",
+    technique="Coq proof (graph contraction/closure invariants) + model-vs-implementation correspondence on generated projects",
+    design="5/C20")
+
+CHECKS["C10"] = dict(
+    text="Coq model of _BobState persistence (save = write .dirty + rename to .new, commit = verify Adler-32 trailer, fsync, "
+         "rename to the pickle; lock file with O_EXCL; async sections; 41 public mutators) over a file-system model with "
+         "crashes (unsynced content adversarial). Unbounded theorems: after any history of invocations and crashes at any "
+         "operation boundary, incl. during recovery, the next start loads without error exactly one saved snapshot not older "
+         "than the last completed invocation; the committed file is durable at every instant; a second instance is refused and "
+         "touches nothing; every mutator saves on change; async sections defer and flush. Tie: the real _BobState driven with "
+         "open/os.open/replace/fsync/unlink wrapped, op traces and getter sweeps compared with the model, ~700 crash images "
+         "restarted for real.",
+    note="hypothesis `detectable` (torn content equals what was written or fails the checksum) is explicit and shown necessary; "
+         "pickle is discharged by a concrete serialiser; directory-entry durability in program order is assumed",
+    technique="Coq proof (crash-recovery invariant over all traces/prefixes) + fault enumeration on the real state class",
+    design="5/C10")
+CHECKS["C11"] = dict(
+    text="Coq model of hashDirectory/DirHasher and the FileIndex merge-walk cache (cache.bin). Theorems for every hash function "
+         "H: hash is a function of the canonical form (names, types, modes, contents, link targets), injective up to an explicit "
+         "H-collision among the hashed blobs (unique decodability of the separator-free blob), DFS order sorted, cached hash = "
+         "uncached hash for every truthful (even unsorted/truncated/stale) index and over all histories incl. the bytes of the "
+         "rewritten cache.bin. Tie: real trees and histories under /var/tmp hashed by the real code with hashlib wrapped: digest, "
+         "blob sequence, hit/miss sequence and new cache.bin bytes compared with the model.",
+    note="SHA-1 abstract in theorems; model runs use a per-case table of real digests; premise 'stat data determines content' "
+         "is the property's own assumption",
+    technique="Coq proof (canonical form, decodability, cache invariant over histories) + differential histories on real trees",
+    design="5/C11")
+CHECKS["C18"] = dict(
+    text="Coq model of LocationPath evaluation (normalisation, forward evaluation, backward predicate evaluation, axis closures, "
+         "intermediate-node search, result path reconstruction, empty-result modes, glob). Unbounded theorems: forward = backward "
+         "= declarative XPath-style semantics, normalisation preserves meaning, closures exact with sufficient fuel, reported "
+         "paths are real root paths to selected packages, every selected package is reported (both modes), once without "
+         "queryAll, mode table; the strict 'path passes through the intermediate steps' clause is `_refuted` (known finding F30) "
+         "and proved in the weak form. Tie: the real PackageSet driven with generated DAGs and queries parsed by the real grammar.",
+    note="pyparsing grammar and sqlite graph cache exercised only; string predicates restricted to the modelled functions",
+    technique="Coq proof (semantic equivalence by induction over query ASTs and graph depth) + differential check",
+    design="5/C18")
+
+READY = ["C02", "C03", "C10", "C11", "C17", "C18", "C19", "C20"]
+
 NOT_YET = {}
 
 
@@ -45,7 +106,7 @@ def main():
     na = []
     for p in props:
         pid = p["id"]
-        if pid in CHECKS and os.path.exists(os.path.join(VERIF, "harness", "props", pid.lower() + ".py")):
+        if pid in CHECKS and pid in READY and os.path.exists(os.path.join(VERIF, "harness", "props", pid.lower() + ".py")):
             c = CHECKS[pid]
             checks.append({
                 "property_id": pid,
